@@ -602,8 +602,8 @@ class FakeSocket:
                 i += 1
             elif casematch(arg, b'by') and i + 1 < len(args):
                 sortby = args[i + 1]
-                if b'*' not in sortby:
-                    dontsort = True
+                # The last BY decides
+                dontsort = b'*' not in sortby
                 i += 1
             elif casematch(arg, b'get') and i + 1 < len(args):
                 get.append(args[i + 1])
@@ -646,7 +646,8 @@ class FakeSocket:
                     return (score, v)
 
             items.sort(key=sort_key, reverse=desc)
-        elif isinstance(key.value, (list, ZSet)):
+        elif desc and isinstance(key.value, (list, ZSet)):
+            # Unsorted lists and sorted sets keep their own order, reversed for DESC
             items.reverse()
 
         out = []
